@@ -27,6 +27,10 @@ ASSUMPTIONS = ["every component issues its ping call before the first exchange c
 
 
 def generate(tape, tier="quick"):
+    if tape.chance(1, 40):
+        # metadata objects shared between slots and reused for a second composition (sim/shared.py, family SH)
+        from ..shared import gen_shared
+        return gen_shared(tape)
     if tape.chance(1, 400):
         # a long acyclic chain: every relay derives its output's metadata from its input and its initial data from the
         # initially pulled input, so the connect phase needs about one (listed upstream-first) or two (downstream-
@@ -146,8 +150,16 @@ def generate(tape, tier="quick"):
         sc["window"] = tape.rng_int(2, 12)
     return sc
 
+RULE = RULE + (' A 1/40 share is family SH (sim/shared.py): 1-3 real CallbackGenerators on grids and units of their own feed the inputs of one real DebugConsumer; all inputs are declared with ONE request Info (grid unset, units unset or convertible), and the composition is built and run once or twice from the very same Info objects with different start times; oracles owned here: sh-run-raises (connect of an acyclic composition completes), sh-info.')
+REAL = list(REAL) + ["CallbackGenerator, DebugConsumer built twice from shared Info objects (family SH)"]
+
 
 def execute(sc):
+    if sc.get("engine") == "SH":
+        from ..shared import run_shared
+        r = run_shared(sc)
+        r["violations"] = [x for x in r["violations"] if x["oracle"] in ('sh-run-raises', 'sh-info')]
+        return r
     r = run_e2(sc)
     rules = any(isinstance(s["info"], list) for c in sc["components"] for s in c["inputs"] + c["outputs"])
     comp = any(o["data"] == "computed" for c in sc["components"] for o in c["outputs"])
